@@ -610,7 +610,8 @@ static long n_s6(void) { return 4L * 8 * 3; }
 
 static long count(int tier)
 {
-    return n_s1(tier) + n_s2() + n_s3() + n_s4(tier) + n_s5() + n_s6();
+    return n_s1(tier) + n_s2() + n_s3() + n_s4(tier) + n_s5() + n_s6()
+	+ 8 * 6 /* S7 */;
 }
 
 static const char *pname(int p, char *b, size_t n)
@@ -802,6 +803,71 @@ static void run_history(vf_result *r, long h)
     roundtrip(r, vcp, &elog, 0, 0, scs, nlive);
     vf_outcome(r, "S4 %d live%s", nlive, deleted_below ?
 	    " with an empty slot below a live one" : "");
+out:
+    vnacal_free(vcp);
+    vf_exec_end(r, mark);
+}
+
+/*
+ * S7: calibrations of one type and different shapes next to each other in
+ * one container (1x2 or 2x1 beside 2x2, 1x1 beside 1x2 or 2x1, 2x2 beside
+ * 3x3 ...), in either order and three in a row; synthetic terms, so every
+ * shape exists for every type.
+ */
+#define S7_NSEQ 6
+static void run_adjacent(vf_result *r, int t, int seq)
+{
+    static const char *const nm[3] = { "first", "second", "third" };
+    /* members: 0 = 1 x 1, 1 = the rectangular two-port, 2 = 2 x 2,
+       3 = the rectangular three-port with two, 4 = 3 x 3 */
+    static const int seqs[S7_NSEQ][3] = {
+	{ 1, 2, -1 }, { 2, 1, -1 }, { 1, 2, 1 }, { 2, 1, 2 },
+	{ 0, 1, 2 }, { 3, 4, 3 },
+    };
+    static cs_scenario tmp;
+    vf_errlog elog;
+    const vnacal_type_t type = types[t];
+    const int wide = is_t(type);
+    char desc[200];
+    size_t off = 0;
+    int n = 0;
+
+    unsigned long mark = vf_exec_begin();
+    vf_errlog_reset(&elog);
+    vnacal_t *vcp = vnacal_create((vnaerr_error_fn_t *)vf_errfn, &elog);
+    if (vcp == NULL) {
+	vf_fail(r, "create", "vnacal_create failed");
+	return;
+    }
+    desc[0] = '\0';
+    g_force_synth = 1;
+    for (int i = 0; i < 3 && seqs[seq][i] >= 0; ++i) {
+	static const int big[5] = { 1, 2, 2, 3, 3 };
+	static const int small[5] = { 1, 1, 2, 2, 3 };
+	const int m = seqs[seq][i];
+	spec_t sp = { type, wide ? small[m] : big[m],
+	    wide ? big[m] : small[m], 1 + i, i & 1, 2 };
+	off += (size_t)snprintf(desc + off, sizeof(desc) - off, "%s%dx%d",
+		i ? ", " : "", sp.rows, sp.cols);
+	if (add_cal(r, vcp, &elog, &sp, nm[i], &tmp) < 0) {
+	    if (r->status == VF_OK)
+		vf_fail(r, "setup:adjacent", "calibration %s not added",
+			nm[i]);
+	    g_force_synth = 0;
+	    goto out;
+	}
+	++n;
+    }
+    g_force_synth = 0;
+    vf_desc(r, "S7 %s calibrations %s next to each other in one container; "
+	    "save, load, save the loaded, load", vnacal_type_to_name(type),
+	    desc);
+    {
+	cs_scenario *scs[3] = { NULL, NULL, NULL };
+	roundtrip(r, vcp, &elog, VNACAL_MAX_PRECISION, VNACAL_MAX_PRECISION,
+		scs, n);
+    }
+    vf_outcome(r, "S7 %d adjacent", n);
 out:
     vnacal_free(vcp);
     vf_exec_end(r, mark);
@@ -1053,6 +1119,12 @@ static void run(int tier, long idx, vf_result *r)
 	return;
     }
     idx -= 8;
+    if (idx < 8 * S7_NSEQ) {
+	int seq = vf_digit(&idx, S7_NSEQ);
+	run_adjacent(r, (int)idx, seq);
+	return;
+    }
+    idx -= 8 * S7_NSEQ;
     {
 	static const int dps[3] = { 0, 17, VNACAL_MAX_PRECISION };
 	int dp = dps[vf_digit(&idx, 3)];
